@@ -149,6 +149,29 @@ def run_pacman_wrap(R):
     R.sample({"kernel": "pac_man.utils.player_step", "x_size": xs, "y_size": ys})
 
 
+def run_int_options(R):
+    """numeric constructor options passed as Python INTs instead of floats (penalty_per_timestep=1, penalty=1, total_budget=2 ...):
+    reward/discount/observation output types must still be those of the specs (a reward whose dtype follows the Python type of an
+    option silently becomes int32).  Structure check from the IR's output types, holds for all inputs."""
+    from jumanji import environments as E
+    g = configs._b()
+    cases = [("Cleaner(penalty_per_timestep=1)", lambda: E.Cleaner(generator=g["CleanerGen"](num_rows=3, num_cols=5, num_agents=2), penalty_per_timestep=1)),
+             ("Cleaner(penalty_per_timestep=0)", lambda: E.Cleaner(generator=g["CleanerGen"](num_rows=3, num_cols=5, num_agents=2), penalty_per_timestep=0)),
+             ("LevelBasedForaging(penalty=1)", lambda: E.LevelBasedForaging(generator=g["LBFGen"](grid_size=5, fov=2, num_agents=2, num_food=1), penalty=1)),
+             ("Knapsack(total_budget=2)", lambda: E.Knapsack(generator=g["KGen"](num_items=4, total_budget=2))),
+             ("CVRP(max_capacity=7, max_demand=3)", lambda: E.CVRP(generator=g["CVRPGen"](num_nodes=4, max_capacity=7, max_demand=3))),
+             ("PacMan(time_limit=7)", lambda: E.PacMan(generator=g["AsciiGenerator"](configs.PACMAN_MAZE), time_limit=7))]
+    R.bound(cases=[c[0] for c in cases])
+    for label, mk in cases:
+        try:
+            env = mk()
+        except Exception as e:  # noqa
+            R.note(f"{label}: not constructible here ({type(e).__name__}); skipped")
+            continue
+        structure(R, env, label, prefix=label + ": ")
+    R.sample({"cases": [c[0] for c in cases]})
+
+
 def run_struct_rewards(R, name):
     """every reward function shipped in the environment's reward module (not only the default one): structure/shape/dtype of
     reward, discount and observation against the specs, from the IR's own output types (holds for all inputs)"""
@@ -198,6 +221,7 @@ def jobs(tier, seed):
         if name != "Sokoban":
             js.append((f"{name}@default/struct", "checks.C01", "run_struct_only", {"name": name, "default": True}))
     js.append(("PacMan/kernel-player_step-wrap", "checks.C01", "run_pacman_wrap", {}))
+    js.append(("constructor-options/python-int-scalars", "checks.C01", "run_int_options", {}))
     for name in ("RubiksCube", "SlidingTilePuzzle", "Sudoku", "BinPack", "FlatPack", "Knapsack", "Connector", "CVRP", "MMST", "MultiCVRP", "Sokoban", "TSP"):
         js.append((f"{name}/struct-reward-fns", "checks.C01", "run_struct_rewards", {"name": name}))
     return js
